@@ -30,7 +30,8 @@ OCfgSet(_z) ==
 GoodCfg(c) == c.mode # "custom" \/ \A r \in 1 .. Len(c.table) : Len(c.table[r]) = NumEnabled(c.params)
 
 MCInit == \E c \in OCfgSet(0) : GoodCfg(c) /\ NumEnabled(c.params) >= 1 /\ OInitWith(c)
-MCSpec == MCInit /\ [][ONext \/ Rerun]_ovars
+MCReconf == \E j \in 1 .. NP, tok \in {1, 2} : (~ ("defaults" \in DOMAIN ocfg)) /\ Reconfigure(j, tok)
+MCSpec == MCInit /\ [][ONext \/ Rerun \/ MCReconf]_ovars
 
 ExportSample(_z) ==
   LET s == SetToSeq({ c \in OCfgSet(0) : GoodCfg(c) /\ NumEnabled(c.params) >= 1 })
